@@ -87,6 +87,10 @@ d.loop(0, _inv_remove, hints=[
     lambda cx, k, v: z3.Not(_gone(v.ports, k, S._t(v.port))),                          # ports strictly ascending
     lambda cx, k, v: _mem(v.head.items, S._t(v.port)),                                 # so the element is present
     lambda cx, k, v: S.forall_int(lambda p: _gone(v.ports, k + 1, p) == z3.Or(_gone(v.ports, k, p), p == S._t(v.port))),
+    lambda cx, k, v: ascending(v.head.items),
+    # list.remove on a strictly ascending list (engine lemma), with its guards discharged
+    lambda cx, k, v: S.forall_int(lambda p: _mem(v.items, p) == z3.And(_mem(v.head.items, p), p != S._t(v.port))),
+    lambda cx, k, v: S.forall_int(lambda p: _mem(v.head.items, p) == z3.And(1 <= p, p <= ALL, z3.Not(_gone(v.ports, k, p)))),
 ])
 
 
